@@ -2,8 +2,7 @@ import FV.Tie.Attr
 import FV.Proofs.Geom
 import FV.Model.Stog
 import FV.Model.Disc
-import Mathlib.Tactic.SplitIfs
-import Mathlib.Tactic.NormNum
+import FV.Model.Force
 /-
   Static part of the Python→Lean tie (`harness/pytrans.py`, `harness/tie.py`).
 
@@ -13,7 +12,8 @@ import Mathlib.Tactic.NormNum
     * `pyAbs`, `pyEq` (Python `abs`, float `==`), the exception type of the `Except` mode;
     * the wire format (`Wire`: value → JSON text, `Rd`: tokens → value) and the two runners used by `#eval`
       (`diffRun`: generated definition against the hand model at `Rat`; `evalRun`: generated definition at `Float`);
-    * the simp set `tie_simp` for the hand-written model definitions and the tactic portfolio `tie_tac`.
+    * the simp set `tie_simp` (hand-written model definitions, Boolean/`Option`/`Except` plumbing, `ite_le_swap`) and
+      the closing tactic `tie_close` of the portfolio that `tie.py` writes for every tie theorem.
   Nothing here is a property theorem.
 -/
 namespace FV.Tie
@@ -140,6 +140,30 @@ def evalRun (tag : String) (inputs : String) (f : P String) : IO Unit := do
     i := i + 1
   IO.println s!"@@DONE {tag} {i}"
 
+/-- a rational stand-in for the library functions, used only by the differential at `Rat` (both sides of a tie are
+    parametric in the record, so any value is a legitimate test point). -/
+def ratFns : Disc.Fns Rat where
+  sq x := x * x
+  hypot x y := (if x < 0 then -x else x) + (if y < 0 then -y else y)
+  acos x := if x < -1 ∨ 1 < x then .error .valueError else .ok ((1 - x) * 3 / 2)
+  sin x := x - x * x * x / 6
+  pi := 22 / 7
+
+/-- the numeric library of the force model at `Float` (libm, as CPython) and a rational stand-in. -/
+def forceOpsF : Force.Ops Float where
+  sqrt := Float.sqrt
+  powHalf := fun x => Float.pow x 0.5
+  sq := fun x => Float.pow x 2.0
+  pi := 3.141592653589793
+  ltInf := fun x => x < (1.0 / 0.0)
+
+def forceOpsQ : Force.Ops Rat where
+  sqrt := fun x => (x + 1) / 2
+  powHalf := fun x => (x + 2) / 3
+  sq := fun x => x * x
+  pi := 22 / 7
+  ltInf := fun _ => true
+
 /-! ### simp set for the hand-written models -/
 
 attribute [tie_simp] pyMax pyMin pyAbs pyEq pyDiv
@@ -149,6 +173,7 @@ attribute [tie_simp] pyMax pyMin pyAbs pyEq pyDiv
   Stog.pyAbs Stog.almostEq Stog.findLocation
   Disc.zero Disc.one Disc.two Disc.negOne Disc.pyAbs Disc.pyDiv Disc.clamp Disc.dist Disc.small Disc.isZero
   Disc.quot Disc.lensRaw Disc.areaD Disc.area
+  Force.zero Force.one Force.two Force.ten Force.tenth Force.tiny Force.clamp Force.fAtt Force.fRep
 
 attribute [tie_simp] Nat.cast_ofNat Nat.cast_zero Nat.cast_one ge_iff_le gt_iff_lt
   Bool.and_eq_true Bool.or_eq_true decide_eq_true_eq Bool.decide_and Bool.decide_or
@@ -156,14 +181,16 @@ attribute [tie_simp] Nat.cast_ofNat Nat.cast_zero Nat.cast_one ge_iff_le gt_iff_
   bind pure Option.bind Except.bind Except.pure Except.map
   Option.some.injEq Prod.mk.injEq
 
-/-- unfold the generated definitions and the model, then close the equation. -/
-macro "tie_tac" : tactic => `(tactic|
-  (simp only [tie_simp]
-   first
-   | done
-   | grind
-   | (split_ifs <;> grind)
-   | (split_ifs <;> simp_all <;> grind)
-   | (split_ifs <;> first | rfl | (simp_all; done) | (congr 1 <;> nlinarith) | nlinarith)))
+/-- conditions `a ≤ b` of an `if` are turned into `b < a` (branches swapped), so that `x if a >= b else y` and
+    `y if a < b else x` unfold to the same term. -/
+@[tie_simp] theorem ite_le_swap {α β : Type} [LinearOrder α] (a b : α) (x y : β) :
+    (if a ≤ b then x else y) = if b < a then y else x := by
+  by_cases h : a ≤ b
+  · rw [if_pos h, if_neg (not_lt.mpr h)]
+  · rw [if_neg h, if_pos (not_le.mp h)]
+
+/-- after `simp only [tie_simp, …]` has unfolded both sides: syntactic equality, else equality up to commutative-ring
+    normalisation (also under binders), else `grind` (linear order + field reasoning with case splits; fails fast). -/
+macro "tie_close" : tactic => `(tactic| first | done | (ring_nf; done) | grind)
 
 end FV.Tie
